@@ -480,7 +480,7 @@ struct Exec {
 				int const sk = c->s[q].kind;
 				if(sk == S_STRIDED && c->s[q].a > 1) probe(P_VIEW_STRIDED);
 				if(sk == S_ROTATED || sk == S_UNROTATED || sk == S_TRANSPOSED || sk == S_REVERSED) probe(P_VIEW_ROTATED);
-				if(sk == S_IDX || sk == S_DIAGONAL || sk == S_PARTITIONED || sk == S_CHUNKED || sk == S_FLATTED) probe(P_VIEW_D_CHANGED);
+				if(sk == S_IDX || sk == S_DIAGONAL || sk == S_PARTITIONED || sk == S_CHUNKED || sk == S_FLATTED || sk == S_HALVED) probe(P_VIEW_D_CHANGED);
 			}
 		if(op.kind == O_VASSIGN_VIEW && (op.var == 2 || op.var == 4) && !threw && ET::tracked) probe(P_MOVED_ELEMENTS);
 		if(!ET::tracked && !threw && (op.kind == O_CTOR_EXT || op.kind == O_REEXTENT || op.kind == O_REEXTENT_MOVE) && eff.elems > 0) probe(P_TRIVIAL_UNWRITTEN_CHECKED);
